@@ -16,6 +16,7 @@ Definition fname_eqb (a b : fname) : bool :=
   | FUser x, FUser y => N.eqb x y
   | FInit x, FInit y => N.eqb x y
   | FConcat, FConcat => true
+  | FLam x, FLam y => N.eqb x y
   | _, _ => false
   end.
 Definition hexpr_eqb (a b : hexpr) : bool :=
@@ -59,6 +60,7 @@ Fixpoint hstmt_eqb (a b : hstmt) {struct a} : bool :=
   | HDecl x, HDecl x' => N.eqb x x'
   | HAssign x e, HAssign x' e' => N.eqb x x' && hexpr_eqb e e'
   | HClosure x f e, HClosure x' f' e' => N.eqb x x' && fname_eqb f f' && hexpr_eqb e e'
+  | HStruct x es, HStruct x' es' => N.eqb x x' && list_eqb hexpr_eqb es es'
   | HUnreachable, HUnreachable => true
   | _, _ => false
   end.
@@ -70,72 +72,105 @@ Definition tmp_at (d : nat) (k : nat) : name := (2 * N.of_nat (d + k) + 1)%N.
 Definition is_tmp (x : name) : bool := N.odd x.
 Definition tmp_index (x : name) : nat := N.to_nat (N.div2 x).
 
-(* smallest temporary index that occurs (defined or used) *)
-Definition omin (a b : option nat) : option nat :=
-  match a, b with
-  | Some x, Some y => Some (Nat.min x y)
-  | Some x, None | None, Some x => Some x
-  | None, None => None
+(* the temporary indices that occur (defined or used), sorted, without duplicates *)
+Fixpoint ins (k : nat) (l : list nat) : list nat :=
+  match l with
+  | [] => [k]
+  | x :: t => if Nat.ltb k x then k :: l else if Nat.eqb k x then l else x :: ins k t
   end.
-Definition mt_name (x : name) : option nat := if is_tmp x then Some (tmp_index x) else None.
-Definition mt_expr (e : hexpr) : option nat := match e with HVar x => mt_name x | _ => None end.
-Definition mt_list {A} (f : A -> option nat) (l : list A) : option nat := fold_right (fun a acc => omin (f a) acc) None l.
-Fixpoint mt_stmt (s : hstmt) : option nat :=
-  let fix go (l : list hstmt) : option nat := match l with [] => None | s :: t => omin (mt_stmt s) (go t) end in
+Definition ins_name (x : name) (l : list nat) : list nat := if is_tmp x then ins (tmp_index x) l else l.
+Definition ins_expr (e : hexpr) (l : list nat) : list nat := match e with HVar x => ins_name x l | _ => l end.
+Fixpoint ins_stmt (s : hstmt) (l : list nat) {struct s} : list nat :=
+  let fix go (ss : list hstmt) (l : list nat) : list nat := match ss with [] => l | s :: t => go t (ins_stmt s l) end in
   match s with
-  | HBin x _ e1 e2 => omin (mt_name x) (omin (mt_expr e1) (mt_expr e2))
-  | HNot x e => omin (mt_name x) (mt_expr e)
+  | HBin x _ e1 e2 => ins_name x (ins_expr e1 (ins_expr e2 l))
+  | HNot x e => ins_name x (ins_expr e l)
   | HCall c args ret =>
-      omin (match c with HCVar x => mt_name x | _ => None end)
-           (omin (mt_list mt_expr args) (match ret with Some x => mt_name x | None => None end))
+      let l := match c with HCVar x => ins_name x l | _ => l end in
+      let l := fold_right ins_expr l args in
+      match ret with Some x => ins_name x l | None => l end
   | HIf c s1 s2 fas =>
-      omin (mt_expr c) (omin (go s1) (omin (go s2)
-        (mt_list (fun fa : name * hexpr * hexpr => omin (mt_name (fst (fst fa))) (omin (mt_expr (snd (fst fa))) (mt_expr (snd fa)))) fas)))
-  | HIndex x e _ => omin (mt_name x) (mt_expr e)
-  | HDecl x => mt_name x
-  | HAssign x e => omin (mt_name x) (mt_expr e)
-  | HClosure x _ e => omin (mt_name x) (mt_expr e)
-  | HUnreachable => None
+      fold_right (fun (fa : name * hexpr * hexpr) l => ins_name (fst (fst fa)) (ins_expr (snd (fst fa)) (ins_expr (snd fa) l)))
+                 (go s2 (go s1 (ins_expr c l))) fas
+  | HIndex x e _ => ins_name x (ins_expr e l)
+  | HDecl x => ins_name x l
+  | HAssign x e => ins_name x (ins_expr e l)
+  | HClosure x _ e => ins_name x (ins_expr e l)
+  | HStruct x es => ins_name x (fold_right ins_expr l es)
+  | HUnreachable => l
   end.
-Definition mt_body (ss : list hstmt) (r : hexpr) : option nat := omin (mt_list mt_stmt ss) (mt_expr r).
+Definition temps_of (ss : list hstmt) (r : hexpr) : list nat := fold_right ins_stmt (ins_expr r []) ss.
+
+Fixpoint index_of (k : nat) (l : list nat) : option nat :=
+  match l with
+  | [] => None
+  | x :: t => if Nat.eqb k x then Some O else match index_of k t with Some i => Some (S i) | None => None end
+  end.
+
+(* The supply.  `Heap::alloc_temp_str` names a temporary after the size of the heap's string table, so the indices
+   of one body increase in the order of allocation but need not be consecutive (interning any new string in
+   between - a synthesized type name, a folded string literal - skips one), and a temporary that is drawn and never
+   used (the collector of a unit call, the temporary of a shortcut && / ||) leaves no trace.  Hence: the temporaries
+   that OCCUR in the model output (run from a dummy supply) are matched, in increasing order, with those that occur
+   in the real statements; the others get fresh names above both. *)
+Definition supply (ms rs : list nat) (k : nat) : name :=
+  match index_of k ms with
+  | Some i => match nth_error rs i with Some r => tmp_at 0 r | None => tmp_at (S (last rs O) + S (last ms O)) k end
+  | None => tmp_at (S (last rs O) + S (last ms O)) k
+  end.
 
 Definition b2n (b : bool) : N := if b then 1%N else 0%N.
 
 (* ------------------------------------------------------------------ the tie: Lower == real HIR *)
 (* One function body: the HIR parameters, the source expression of the body, the real statements and return
-   expression.  The temporaries of one body are consecutive `_t<K>`; where the run starts is not visible from outside
-   (a first temporary may be drawn and never used), so the base is found from the smallest index that occurs: once
-   in the model run from base 0, once in the real statements.
+   expression.
    row = [ model /= real ; no let rebinds a visible name (Syntax.ns) ; number of temporaries the model draws ;
-           base ] *)
+           number of temporaries that occur ] *)
 Definition fcase := (list name * expr * list hstmt * hexpr)%type.
+
+Definition model_with (ver : version) (c : fcase) : list hstmt * hexpr * nat * nat :=
+  let '(params, body, real_s, real_r) := c in
+  let '(m0_s, m0_r, _) := lower_body ver (tmp_at 0) params body in
+  let ms := temps_of m0_s m0_r in
+  let rs := temps_of real_s real_r in
+  let '(m_s, m_r, n) := lower_body ver (supply ms rs) params body in
+  (m_s, m_r, n, length ms).
 
 Definition tie_fn_with (ver : version) (c : fcase) : list N :=
   let '(params, body, real_s, real_r) := c in
-  let '(m0_s, m0_r, _) := lower_body ver (tmp_at 0) params body in
-  let d := match mt_body m0_s m0_r, mt_body real_s real_r with
-           | Some k, Some K => (K - k)%nat
-           | _, _ => O
-           end in
-  let '(m_s, m_r, n) := lower_body ver (tmp_at d) params body in
+  let '(m_s, m_r, n, k) := model_with ver c in
   [ b2n (negb (hstmts_eqb m_s real_s && hexpr_eqb m_r real_r));
     b2n (nsB params body);
     N.of_nat n;
-    N.of_nat d ].
+    N.of_nat k ].
 Definition tie_fn := tie_fn_with Pinned.
 Definition tie_fns (cs : list fcase) : list (list N) := map tie_fn cs.
-(* the same against the model of the seeded change (used by the sensitivity run: which version does the tree implement?) *)
+(* the same against the model of the seeded change (used when a body disagrees: which version does the tree implement?) *)
 Definition tie_fns_seeded7 (cs : list fcase) : list (list N) := map (tie_fn_with Seeded7) cs.
 
+(* One synthetic function of a lambda: captured names (order of the map), the lambda's parameters, its body; the real
+   parameters, statements and result of the synthetic function.
+   row = [ model /= real ; no let of the body rebinds a parameter or a captured name ; temporaries drawn ; that occur ] *)
+Definition lcase := (list name * list name * expr * list name * list hstmt * hexpr)%type.
+Definition lmodel_with (ver : version) (c : lcase) : list name * list hstmt * hexpr * nat * nat :=
+  let '(caps, params, body, real_p, real_s, real_r) := c in
+  let '(_, m0_s, m0_r, _) := lambda_fn ver (tmp_at 0) caps params body 0 in
+  let ms := temps_of m0_s m0_r in
+  let rs := temps_of real_s real_r in
+  let '(m_p, m_s, m_r, n) := lambda_fn ver (supply ms rs) caps params body 0 in
+  (m_p, m_s, m_r, n, length ms).
+Definition tie_lambda (c : lcase) : list N :=
+  let '(caps, params, body, real_p, real_s, real_r) := c in
+  let '(m_p, m_s, m_r, n, k) := lmodel_with Pinned c in
+  [ b2n (negb (list_eqb N.eqb m_p real_p && hstmts_eqb m_s real_s && hexpr_eqb m_r real_r));
+    b2n (nsB (params ++ caps) body);
+    N.of_nat n;
+    N.of_nat k ].
+Definition tie_lambdas (cs : list lcase) : list (list N) := map tie_lambda cs.
+Definition lmodel_of (c : lcase) : list name * list hstmt * hexpr := fst (fst (lmodel_with Pinned c)).
+
 (* what the model produces (printed by the check next to a disagreement) *)
-Definition model_of (c : fcase) : list hstmt * hexpr * nat :=
-  let '(params, body, real_s, real_r) := c in
-  let '(m0_s, m0_r, _) := lower_body Pinned (tmp_at 0) params body in
-  let d := match mt_body m0_s m0_r, mt_body real_s real_r with
-           | Some k, Some K => (K - k)%nat
-           | _, _ => O
-           end in
-  lower_body Pinned (tmp_at d) params body.
+Definition model_of (c : fcase) : list hstmt * hexpr * nat := fst (model_with Pinned c).
 
 (* ------------------------------------------------------------------ sanity evaluation: SrcSem of the body vs HirSem of the REAL statements *)
 (* kinds of values (from the source types, printed by the dump), used to build environments and worlds whose
@@ -186,6 +221,7 @@ Definition table_world (tab : list (N * option kind)) (salt : N) : world :=
         | Some (Some k) => Some (value_of k (salt + 3 * g + 7 * N.of_nat (length tr))%N)
         | None => Some (value_of KInt (salt + 3 * g + 7 * N.of_nat (length tr))%N)
         end
+    | FLam g => Some (value_of KInt (salt + 5 * g + 7 * N.of_nat (length tr))%N)
     | _ => None
     end.
 
@@ -216,3 +252,51 @@ Definition sanity_fn (salts : list N) (c : scase) : list N :=
                      cmp_sres (seval w true r body []) (run_lowered w real_s real_r r [])) salts in
   [countN rows 0; countN rows 1; countN rows 2; countN rows 3].
 Definition sanity_fns (salts : list N) (cs : list scase) : list (list N) := map (sanity_fn salts) cs.
+
+(* ------------------------------------------------------------------ witnesses (Props.v) *)
+(* source variables 2, 4, ..; temporaries 101, 103, .. *)
+Definition tmp0 (k : nat) : name := (101 + 2 * N.of_nat k)%N.
+Definition w_one : world := fun _ _ _ => Some (VInt 1).
+Definition call0 (f : N) : expr := ECallM EClass (FUser f) ENil false.
+Definition env_x (v : value) : name -> option value := fun y => if N.eqb y 2 then Some v else None.
+
+(* seeded change C01-7: `x && (f() || true)` - the right operand has the constant value true and an effect *)
+Definition e_seeded7 : expr := EAnd (EVar 2) (EOr (call0 1) (EBool true)).
+(* receiver with an effect, then an argument with an effect: f1().f2(f3()) *)
+Definition e_order : expr := ECallM (call0 1) (FUser 2) (ECons (call0 3) ENil) false.
+(* `{ let x = 1; { let x = 2; if true { 0 } else { 0 } }; x }`: the inner block rebinds x, the constant condition
+   leaves a scope on the stack, the pop of the inner block removes that one, and the outer `x` reads the inner x *)
+Definition e_rebind : expr :=
+  EBlock (BLet (Some 2%N) (EInt 1)
+         (BExp (EBlock (BLet (Some 2%N) (EInt 2) (BEndE (EIf (EBool true) (EBlock (BEndE (EInt 0))) (EBlock (BEndE (EInt 0)))))))
+         (BEndE (EVar 2)))).
+(* every form of the fragment at once *)
+Definition e_rich : expr :=
+  EBlock (BLet (Some 4%N) (ETuple 9 (ECons (EBin PLUS (EVar 2) (EInt 3)) (ECons (EConcat (EStr [97%N]) (EStr [98%N])) ENil)))
+         (BLet None (ECallM EClass (FUser 5) (ECons (EConcat (EField (EVar 4) 1) (EStr [99%N])) ENil) true)
+         (BExp (ECallC (EMethod (EVar 4) (FUser 6)) (ECons (EUn UNeg (EField (EVar 4) 0)) ENil) false)
+         (BEndE (EIf (EOr (EAnd (EBin LT (EVar 2) (EInt 0)) (call0 7)) (EUn UNot (call0 8)))
+                     (EBlock (BEndE (EBin DIV (EInt 10) (EVar 2))))
+                     (EIf (EBool false) (EBlock BEndU) (EBlock (BEndE (EInt 7))))))))).
+(* `{ let (a, _, b) = (x, f(), x + 1); a - b }`, a = 4, b = 6 *)
+Definition e_tuplelet : expr :=
+  EBlock (BLetT [4%N; 6%N] [Some 4%N; None; Some 6%N]
+                (ETuple 9 (ECons (EVar 2) (ECons (call0 1) (ECons (EBin PLUS (EVar 2) (EInt 1)) ENil))))
+                (BEndE (EBin MINUS (EVar 4) (EVar 6)))).
+(* `{ let f = (y) -> y + x; f(3) }`: x (2) captured, y = 8, f = 10, the lambda is number 1 *)
+Definition e_lambda : expr :=
+  EBlock (BLet (Some 10%N) (ELambda 1 [2%N] [8%N] (EBin PLUS (EVar 8) (EVar 2)))
+         (BEndE (ECallC (EVar 10) (ECons (EInt 3) ENil) false))).
+(* a world that answers a call of the synthetic function 1 by running the model's synthetic function *)
+Definition w_lam : world := fun tr f vs =>
+  match f, vs with
+  | FLam 1, [ctx; a] =>
+      let '(ps, ss, re, _) := lambda_fn Pinned tmp0 [2%N] [8%N] (EBin PLUS (EVar 8) (EVar 2)) 50 in
+      match run_lowered (fun _ _ _ => None) ss re (upd (upd (fun _ => None) this_name (Some ctx)) 8%N (Some a)) [] with
+      | SVal v _ => Some v
+      | _ => None
+      end
+  | _, _ => None
+  end.
+Definition run_body (ver : version) (w : world) (params : list name) (body : expr) (r : name -> option value) : sres :=
+  let '(ss, re, _) := lower_body ver tmp0 params body in run_lowered w ss re r [].
